@@ -218,7 +218,15 @@ pub fn run(tier: &str) -> Result<Report, String> {
         rep.set("bundled_models", json!(big));
     }
     rep.set("one_hole_contexts", json!(n_contexts));
-    rep.rule = format!("every one-hole context with <= {ctx_nodes} nodes (all unary operators, & | => EU AU, bind/exists/forall with and without domains, jump) x the two shortcut patterns, their pattern-defeating twins and 16 near-miss families (other variable, domain on the binder, extra / fewer / swapped / other operators, other quantifier), on the core networks (and on the multi-colour ones with the graph restricted to every second colour) x 2 label families: shortcut vs twin must be the same set (BDD equality); the pattern occurring twice (inside a domain-restricted context and in any other context, both orders, joined by & / |; context sizes (domain, other) bounded by (3,2) in quick and on 3-variable networks, (4,2) and (3,3) in thorough on networks with <= 2 variables) vs the same with twins, and vs the oracle; and every formula must agree with the explicit-state oracle and stay inside the unit set; plus, on bundled models with 9..101 variables (child processes, wall limit; quick: cell_cycle_2016, myeloid, cell_division, guard cell, tacas2), set-level conditions that need neither the oracle nor the generic twin: the result of the attractor formula is closed under successors, reachable from every (state, colour) pair, three deterministic witness pairs lie in a terminal SCC (library forward/backward reachability) and are found by the generic evaluation restricted to the witness (`!{{x}} in %t%: AG EF {{x}}` = {{t}}), a witness outside is not; the steady-state formula equals the pairs where no variable can change; distinct_nontrivial = distinct non-trivial verdict tables");
+    // the shortcuts must not remember anything between calls: two-step histories over look-alike graphs
+    {
+        let units: Vec<_> = nets.iter().filter(|b| b.name == "con2").cloned().collect();
+        let fam = crate::history::family(tier, 3, &units);
+        let warm = ["!{x}: AG EF {x}", "!{x}: AX {x}", "EF (!{x}: AX {x})", "3{x}: @{x}: (!{y}: AG EF {y})", "!{x} in %d%: AG EF {x}", "!{x} in %e%: AX {x}"];
+        let probes = ["!{x}: AG EF {x}", "!{x}: AX {x}", "!{x}: AG EF ({x} & {x})", "!{x}: AX ({x} & {x})", "EF (!{x}: AX {x})", "AX (!{x}: AG EF {x})", "3{x}: @{x}: (!{y}: AG EF {y})", "!{x} in %d%: AG EF {x}", "!{x} in %e%: AX {x}", "V{y} in %d%: (!{x}: AG EF {x}) | {y}", "(!{x}: AX {x}) & %p%"];
+        crate::history::run(&mut rep, &fam, &warm, &probes, ck, 0)?;
+    }
+    rep.rule = format!("plus two-step histories: ordered pairs of look-alike graphs (networks over a, b with identical symbolic encoding but other update functions, with and without a shared function symbol; the same network with the unit set restricted to every second / the last colour) - warm-up formulae on the first graph, then probe formulae on the second on one fresh OS thread, every probe result against the explicit-state oracle and the unit set; every one-hole context with <= {ctx_nodes} nodes (all unary operators, & | => EU AU, bind/exists/forall with and without domains, jump) x the two shortcut patterns, their pattern-defeating twins and 16 near-miss families (other variable, domain on the binder, extra / fewer / swapped / other operators, other quantifier), on the core networks (and on the multi-colour ones with the graph restricted to every second colour) x 2 label families: shortcut vs twin must be the same set (BDD equality); the pattern occurring twice (inside a domain-restricted context and in any other context, both orders, joined by & / |; context sizes (domain, other) bounded by (3,2) in quick and on 3-variable networks, (4,2) and (3,3) in thorough on networks with <= 2 variables) vs the same with twins, and vs the oracle; and every formula must agree with the explicit-state oracle and stay inside the unit set; plus, on bundled models with 9..101 variables (child processes, wall limit; quick: cell_cycle_2016, myeloid, cell_division, guard cell, tacas2), set-level conditions that need neither the oracle nor the generic twin: the result of the attractor formula is closed under successors, reachable from every (state, colour) pair, three deterministic witness pairs lie in a terminal SCC (library forward/backward reachability) and are found by the generic evaluation restricted to the witness (`!{{x}} in %t%: AG EF {{x}}` = {{t}}), a witness outside is not; the steady-state formula equals the pairs where no variable can change; distinct_nontrivial = distinct non-trivial verdict tables");
     Ok(rep)
 }
 
